@@ -7,6 +7,7 @@ import copy
 from vlib import pulp_highs, reflp, workload
 
 ASSUMPTIONS = [
+    "the reference takes the intake caps from the documented table for the submitted intake_constraints value, not from the constants of the run",
     "reference = independently formulated LP (vlib/reflp.py) solved by scipy HiGHS. Two comparisons, both directions: (1) the PuLP model the repository's code builds, solved by HiGHS without CBC, must agree with the reference to 5e-7*max(1,|z|) (formulation; both solved with HiGHS feasibility tolerances 1e-10, observed agreement 2.5e-9); (2) the value CBC reports must agree to 1e-4*max(1,|z|) (CBC's feasibility tolerance is amplified by the seaweed growth chain on world-scale instances: observed up to 3.0e-5 below the optimum, WOR seaweed 96 months)",
     "HiGHS status != optimal or time limit -> instance inconclusive, never a violation",
     "the animal round is compared with human consumption pinned inside the band the model documents (1e-5, 1e-4 below 10 M people)",
@@ -19,17 +20,41 @@ def gen_cases(tier, seed):
     return workload.pipeline_grid(tier, seed)
 
 
+# the documented caps on the share of seaweed / cellulosic sugar / methane SCP (scenarios/README.md and the two setters of the
+# intake_constraints family): humans by mode, feed and biofuel the same in both modes
+DOC_CAPS = {"HUMANS": {"enabled": {"SEAWEED": 10, "CELLULOSIC_SUGAR": 40, "METHANE_SCP": 50},
+                       "disabled_for_humans": {"SEAWEED": 100, "CELLULOSIC_SUGAR": 100, "METHANE_SCP": 100}},
+            "FEED": {"SEAWEED": 10, "CELLULOSIC_SUGAR": 10, "METHANE_SCP": 43},
+            "BIOFUEL": {"SEAWEED": 10, "CELLULOSIC_SUGAR": 100, "METHANE_SCP": 100}}
+
+
+def with_documented_caps(consts, opts):
+    """copy of the optimiser constants whose intake caps are the documented ones for the SUBMITTED intake_constraints value"""
+    mode = opts.get("intake_constraints")
+    if mode not in DOC_CAPS["HUMANS"]:
+        return consts
+    c = copy.copy(consts)
+    inp = dict(c["inputs"])
+    for use in ("HUMANS", "FEED", "BIOFUEL"):
+        tab = DOC_CAPS[use][mode] if use == "HUMANS" else DOC_CAPS[use]
+        for food, pct in tab.items():
+            inp["MAX_%s_AS_PERCENT_KCALS_%s" % (food, use)] = pct
+    c["inputs"] = inp
+    return c
+
+
 def monitor(tr, case):
     viol, lps = [], []
     for k, lp in enumerate(tr.lps):
-        r = reflp.ref_lp(lp.kind, lp.consts, lp.time_consts, lp.mhc, physical_meat=True)
+        ref_consts = with_documented_caps(lp.consts, case["opts"])
+        r = reflp.ref_lp(lp.kind, ref_consts, lp.time_consts, lp.mhc, physical_meat=True)
         rec = {"kind": lp.kind, "round": k + 1, "z_repo": lp.objective, "z_ref": r["z"], "status": r["status"],
                "rows": r["n_rows"], "vars": r["n_vars"], "tight": sorted(f for f, v in r["tight"].items() if v)}
         if r["status"] != 0:
             rec["inconclusive"] = r["message"]
             # an infeasible *reference* while the model solved is itself informative: classify below
             if r["status"] == 2:
-                r2 = reflp.ref_lp(lp.kind, lp.consts, lp.time_consts, lp.mhc, physical_meat=False)
+                r2 = reflp.ref_lp(lp.kind, ref_consts, lp.time_consts, lp.mhc, physical_meat=False)
                 if r2["status"] == 0:
                     viol.append({"mech": "optimum_not_physically_feasible_meat_before_slaughter",
                                  "msg": "%s round %d (%s): reference with the cumulative meat ledger is infeasible, with the per-month cap it gives %.6f (model %.6f)" % (
@@ -49,7 +74,7 @@ def monitor(tr, case):
         tol_f = 5e-6 if r.get("loose_tolerances") else TOL
         rec["reference_loose_tolerances"] = bool(r.get("loose_tolerances"))
         if gap_m is not None and abs(gap_m) > tol_f:
-            r2 = reflp.ref_lp(lp.kind, lp.consts, lp.time_consts, lp.mhc, physical_meat=False)
+            r2 = reflp.ref_lp(lp.kind, ref_consts, lp.time_consts, lp.mhc, physical_meat=False)
             if r2["status"] == 0 and abs(zm - r2["z"]) <= TOL * max(1.0, abs(r2["z"])) and gap_m > 0:
                 mech = "optimum_exceeds_physical_meat_before_slaughter"
             else:
